@@ -51,6 +51,7 @@ type c13rCase struct {
 	Desc  map[string]interface{} `json:"desc"`
 
 	ppub     int
+	seq      int
 	mu       sync.Mutex
 	msg      *message.Message
 	produced map[*message.Message]int
@@ -174,7 +175,7 @@ func (g *c13rGroup) run(rt *hookrt.Runtime, cases []*c13rCase, router bool) erro
 	rt.Reset()
 	rt.Filter(func(point string, keys []string) bool {
 		c := g.current()
-		if c == nil || len(keys) == 0 || keys[0] != c.ID {
+		if c == nil { // sequential: every settle call belongs to the message being handled, whatever its UUID
 			return false
 		}
 		switch point {
@@ -225,7 +226,14 @@ func (g *c13rGroup) run(rt *hookrt.Runtime, cases []*c13rCase, router bool) erro
 	for _, c := range cases {
 		c.Router, c.Topic, c.Filter, c.MaxRetries = router, g.in.ID(g.topic), g.filter.tree(g.in), g.maxRetries
 		c.produced, c.done = map[*message.Message]int{}, make(chan struct{})
-		c.msg = message.NewMessage(c.ID, []byte("payload of "+c.ID))
+		uuid, payload := c.ID, []byte("payload of "+c.ID)
+		switch c.seq % 7 { // boundary inputs: empty UUID, a UUID shared by several messages, nil / empty payload
+		case 0:
+			uuid, payload = "", nil
+		case 1:
+			uuid, payload = "shared-uuid", []byte{}
+		}
+		c.msg = message.NewMessage(uuid, payload)
 		c.msg.Metadata.Set("reason_poisoned", "old")
 		c.msg.Metadata.Set("k", c.ID)
 		c.Msg = g.g13.snap(c.msg)
@@ -274,7 +282,7 @@ func (g *c13rGroup) run(rt *hookrt.Runtime, cases []*c13rCase, router bool) erro
 		}
 		c.Desc = map[string]interface{}{"mode": map[bool]string{true: "PoisonQueue(Retry(h)) inside a Router", false: "PoisonQueue(Retry(h)) called directly"}[router],
 			"filter": g.filter.String(), "max_retries": g.maxRetries, "script": strings.Join(sc, " ; "),
-			"poison_publisher": c.PP[0], "handler_calls": strconv.Itoa(c.Calls)}
+			"poison_publisher": c.PP[0], "handler_calls": strconv.Itoa(c.Calls), "uuid": c.msg.UUID}
 	}
 	if router {
 		if err := r.Close(); err != nil {
@@ -330,7 +338,7 @@ func cmdC13Retry(args []string) error {
 				for _, s := range scripts {
 					n++
 					cs := append([]c13rAttempt(nil), s...)
-					cases = append(cases, &c13rCase{ID: fmt.Sprintf("r%d", n), Script: cs, ppub: []int{0, 0, 1, 2}[rng.Intn(4)], PB: []int{0, 0, 1}[rng.Intn(3)]})
+					cases = append(cases, &c13rCase{ID: fmt.Sprintf("r%d", n), seq: n, Script: cs, ppub: []int{0, 0, 1, 2}[rng.Intn(4)], PB: []int{0, 0, 1}[rng.Intn(3)]})
 				}
 				if err := g.run(rt, cases, router); err != nil {
 					return err
